@@ -123,3 +123,120 @@ Proof.
   split; [vm_compute; reflexivity|]. split; [vm_compute; reflexivity|]. split; [vm_compute; reflexivity|]. split; [vm_compute; reflexivity|].
   split; (split; [apply existsb_In; vm_compute; reflexivity|vm_compute; tauto]).
 Qed.
+
+(** ---------------------------------------------------------------- the chain family, BOUNDED: every hypothesis of
+    order_invariant_strings in decidable form, checked for all chain lengths n, m <= 12 by computation *)
+Definition is_some {A} (o : option A) : bool := match o with Some _ => true | None => false end.
+Definition heavy_payloadb (C : cut) : bool :=
+  forallb (fun x => is_some (aget (S "element") (payload C x)) && is_some (aget (S "charge") (payload C x))
+                    && match aget (S "hcount") (payload C x) with Some (VInt _) => true | _ => false end
+                    && negb (Hydrogens.is_H (payload C x))) (flat C).
+Lemma heavy_payloadb_sound C : heavy_payloadb C = true -> heavy_payload C.
+Proof.
+  unfold heavy_payloadb. intros H x Fx. rewrite forallb_forall in H. specialize (H x Fx).
+  apply andb_prop in H as [H H4]. apply andb_prop in H as [H H3]. apply andb_prop in H as [H1 H2].
+  split; [destruct (aget (S "element") (payload C x)); [eauto|discriminate]|].
+  split; [destruct (aget (S "charge") (payload C x)); [eauto|discriminate]|].
+  split; [destruct (aget (S "hcount") (payload C x)) as [[]|]; try discriminate; eauto|].
+  now apply negb_true_iff in H4.
+Qed.
+Definition numeric_ordersb (C : cut) : bool :=
+  forallb (fun b => match Hydrogens.half_of_num (cb_ord b) with Ok _ => true | Err _ => false end) (c_bonds C).
+Lemma numeric_ordersb_sound C : numeric_ordersb C = true -> numeric_orders C.
+Proof.
+  unfold numeric_ordersb. intros H b Hb. rewrite forallb_forall in H. specialize (H b Hb). unfold numeric.
+  destruct (Hydrogens.half_of_num (cb_ord b)); [eauto|discriminate].
+Qed.
+Definition nochar (c : ascii) (s : pystr) : bool := negb (existsb (Ascii.eqb c) s).
+Lemma nochar_sound c s : nochar c s = true -> ~ In c s.
+Proof.
+  unfold nochar. intros H I. apply negb_true_iff in H. assert (existsb (Ascii.eqb c) s = true); [|congruence].
+  apply existsb_exists. exists c. split; [exact I|apply Ascii.eqb_refl].
+Qed.
+Definition ndict_eqb (a b : ndict ascii) : bool :=
+  Nat.eqb (length a) (length b) && forallb (fun pq => Nat.eqb (fst (fst pq)) (fst (snd pq)) && Ascii.eqb (snd (fst pq)) (snd (snd pq))) (combine a b).
+Lemma ndict_eqb_sound a : forall b, ndict_eqb a b = true -> a = b.
+Proof.
+  unfold ndict_eqb. induction a as [|[i c] r IH]; intros [|[j d] s] H; cbn in H; try discriminate; [reflexivity|].
+  apply andb_prop in H as [H1 H2]. apply andb_prop in H2 as [H2 H3]. apply andb_prop in H2 as [Hi Hc].
+  apply Nat.eqb_eq in Hi. apply Ascii.eqb_eq in Hc. subst. f_equal. apply IH. cbn. now rewrite H1, H3.
+Qed.
+
+(** one fragment's reading, decidable *)
+Definition readingb (fo : float_oracle) (C : cut) (name : pystr) (xs : list Z) (toks : list tok) (dc : decor) (ez : ndict ascii) : bool :=
+  FragText.wf toks dc && negb (excluded toks dc) && wf_smiles toks &&
+  match strip_spec fo toks dc, graph_of false toks with
+  | Ok (_, d, ez', ann), Ok G =>
+      match final_assemble name G d ez' ann with
+      | Ok T0 => ndict_eqb ez' ez && plainb G ann && ez_plainb G ann && cut_agreesb C xs T0 d
+      | Err _ => false
+      end
+  | _, _ => false
+  end.
+Lemma readingb_sound fo C name xs toks dc ez : readingb fo C name xs toks dc ez = true ->
+  exists T0, frag_reading fo C name xs toks dc ez T0.
+Proof.
+  unfold readingb. intros H. apply andb_prop in H as [H H4]. apply andb_prop in H as [H H3]. apply andb_prop in H as [H1 H2].
+  apply negb_true_iff in H2.
+  destruct (strip_spec fo toks dc) as [[[[clean d] ez'] ann]|] eqn:ES; [|discriminate].
+  destruct (graph_of false toks) as [G|] eqn:EG; [|discriminate].
+  destruct (final_assemble name G d ez' ann) as [T0|] eqn:EA; [|discriminate].
+  apply andb_prop in H4 as [H4 H8]. apply andb_prop in H4 as [H4 H7]. apply andb_prop in H4 as [H5 H6].
+  apply ndict_eqb_sound in H5. subst ez'. exists T0. constructor; auto.
+  exists clean, d, ann, G. split; [exact ES|]. split; [exact EG|]. split; [exact EA|].
+  split; [now apply plainb_sound|]. split; [now apply ez_plainb_sound|now apply cut_agreesb_sound].
+Qed.
+
+Definition family_okb (n m : nat) : bool :=
+  let C := chain_cut n m in
+  let tA := render (decorate (toksX "Cl" n) (dcl n)) in let tB := render (decorate (toksX "Br" m) (dcl m)) in
+  readingb fo0 C nA (keysX 0 n) (toksX "Cl" n) (dcl n) ez02 && readingb fo0 C nB (keysX 1 m) (toksX "Br" m) (dcl m) ez02
+  && wf_cutb C && heavy_payloadb C && numeric_ordersb C && is_baseb C (next_meta baseAB) && is_baseb (swap_parts C) (next_meta baseBA)
+  && nochar ","%char tA && nochar ","%char tB && nochar "}"%char tA && nochar "}"%char tB.
+
+(** the order theorem for one member of the family, from the decidable check alone *)
+Theorem family_member n m o1 o2 : family_okb n m = true ->
+  let C1 := chain_cut n m in let C2 := swap_parts C1 in
+  let tA := render (decorate (toksX "Cl" n) (dcl n)) in let tB := render (decorate (toksX "Br" m) (dcl m)) in
+  resolve_string fo0 (sAB tA tB) = Ok o1 -> resolve_string fo0 (sBA tA tB) = Ok o2 ->
+  exists m1 m2, sort_mapping (fo_m4 o1) = Ok m1 /\ sort_mapping (fo_m4 o2) = Ok m2 /\
+    forall lx ax ay ly c1 c2 k1 k2, In lx (flat C1) -> In ax (flat C1) -> In ay (flat C1) -> In ly (flat C1) ->
+      owner C1 lx = owner C1 ax -> owner C1 ly = owner C1 ay -> wb C1 lx ax = false -> wb C1 ly ay = false ->
+      is_new (fo_m5 o1) (fo_mol o1) k1
+        (ez_tuple (map_get m1 (phi C1 lx)) (map_get m1 (phi C1 ax)) (map_get m1 (phi C1 ay)) (map_get m1 (phi C1 ly)) c1) ->
+      is_new (fo_m5 o2) (fo_mol o2) k2
+        (ez_tuple (map_get m2 (phi C2 lx)) (map_get m2 (phi C2 ax)) (map_get m2 (phi C2 ay)) (map_get m2 (phi C2 ly)) c2) ->
+      c1 = c2.
+Proof.
+  unfold family_okb. cbv zeta. intros H R1 R2.
+  apply andb_prop in H as [H N4]. apply andb_prop in H as [H N3]. apply andb_prop in H as [H N2]. apply andb_prop in H as [H N1].
+  apply andb_prop in H as [H B2]. apply andb_prop in H as [H B1]. apply andb_prop in H as [H Hn]. apply andb_prop in H as [H Hh].
+  apply andb_prop in H as [H Hw]. apply andb_prop in H as [RA0 RB0].
+  destruct (readingb_sound _ _ _ _ _ _ _ RA0) as [TA RA]. destruct (readingb_sound _ _ _ _ _ _ _ RB0) as [TB RB].
+  apply (order_invariant_strings fo0 (chain_cut n m) (keysX 0 n) (keysX 1 m) (toksX "Cl" n) (toksX "Br" m) (dcl n) (dcl m) ez02 ez02 TA TB o1 o2
+           RA RB eq_refl (wf_cutb_sound _ Hw) (heavy_payloadb_sound _ Hh) (numeric_ordersb_sound _ Hn) (is_baseb_sound _ _ B1) (is_baseb_sound _ _ B2)); auto.
+  repeat split; now apply nochar_sound.
+Qed.
+Definition all_pairs_upto (n m : nat) : list (nat * nat) := flat_map (fun i => map (pair i) (seq 0 (Datatypes.S m))) (seq 0 (Datatypes.S n)).
+Theorem family_ok_bounded : forall n m, (n <= 12)%nat -> (m <= 12)%nat -> family_okb n m = true.
+Proof.
+  assert (H : forallb (fun p => family_okb (fst p) (snd p)) (all_pairs_upto 12 12) = true) by (vm_compute; reflexivity).
+  intros n m Hn Hm. rewrite forallb_forall in H. apply (H (n, m)).
+  unfold all_pairs_upto. apply in_flat_map. exists n. split; [apply in_seq; lia|]. apply in_map. apply in_seq. lia.
+Qed.
+(** BOUNDED (chain lengths <= 12, the bound is in the statement): for the strings
+      {[#A][#B]}.{#A=[$]=C(Cl)/C C^n,#B=[$]=C(Br)/C C^m}   and   {[#B][#A]}.{...}
+    the class stored for the same four atoms is the same *)
+Theorem chain_family_order_invariant_bounded n m o1 o2 : (n <= 12)%nat -> (m <= 12)%nat ->
+  let C1 := chain_cut n m in let C2 := swap_parts C1 in
+  let tA := render (decorate (toksX "Cl" n) (dcl n)) in let tB := render (decorate (toksX "Br" m) (dcl m)) in
+  resolve_string fo0 (sAB tA tB) = Ok o1 -> resolve_string fo0 (sBA tA tB) = Ok o2 ->
+  exists m1 m2, sort_mapping (fo_m4 o1) = Ok m1 /\ sort_mapping (fo_m4 o2) = Ok m2 /\
+    forall lx ax ay ly c1 c2 k1 k2, In lx (flat C1) -> In ax (flat C1) -> In ay (flat C1) -> In ly (flat C1) ->
+      owner C1 lx = owner C1 ax -> owner C1 ly = owner C1 ay -> wb C1 lx ax = false -> wb C1 ly ay = false ->
+      is_new (fo_m5 o1) (fo_mol o1) k1
+        (ez_tuple (map_get m1 (phi C1 lx)) (map_get m1 (phi C1 ax)) (map_get m1 (phi C1 ay)) (map_get m1 (phi C1 ly)) c1) ->
+      is_new (fo_m5 o2) (fo_mol o2) k2
+        (ez_tuple (map_get m2 (phi C2 lx)) (map_get m2 (phi C2 ax)) (map_get m2 (phi C2 ay)) (map_get m2 (phi C2 ly)) c2) ->
+      c1 = c2.
+Proof. intros Hn Hm. exact (family_member n m o1 o2 (family_ok_bounded n m Hn Hm)). Qed.
